@@ -642,6 +642,11 @@ func main() {
 		nLife = 60
 	}
 	lifeCases(r, nLife)
+	nTrace := 6
+	if thorough {
+		nTrace = 40
+	}
+	simTraceCases(r, nTrace)
 
 	// the two regression witnesses of finding C14-D30 (Props/C14.lean §5)
 	{
